@@ -16,6 +16,9 @@ RULE = ('names: 0..8 components, types over every var-number size <= 65535, valu
         'valid + a malformed corner list; wire: valid names + single-edit mutants; pairs of names for prefix/order; '
         'the prefix test through every representation of both arguments (list, URI, canonical URI, wire, string list) incl. names with empty components; '
         'call sequences convert / edit the result in place / convert again (a conversion is a function of its argument). '
+        'Components BUILT from a value and a type (from_bytes / from_hex / from_number): types -1, 0, 1..8, 32, 50, 58, 251..257 (the '
+        '1-octet/3-octet Type boundary), 300, 65534..65536, 70000 x value lengths 0,1,2,8,251..254,300 and numbers on every width boundary, '
+        'against the model and an independent Type-Length-Value reference. '
         'non-trivial = at least one component or a non-empty string; distinct by input hash')
 ASSUMPTIONS = ['CPython semantics of int(), str.split, bytes.hex/fromhex, struct are modelled (Base/Text.v, Base/PyPrim.v)']
 
@@ -167,6 +170,36 @@ def run(ctx):
             ctx.case(('cmut', c), True, None, 'comp.mutant')
         else:
             check_comp(ctx, M, Component, c, t, v)
+    # building a component from a value and a type number: every type on the 1-octet / 3-octet Type boundary (252..256), the
+    # ends of the legal range and just outside, x value lengths on the Length boundary -- through from_bytes, from_hex, from_number
+    btypes = [-1, 0, 1, 2, 7, 8, 32, 50, 58, 251, 252, 253, 254, 255, 256, 257, 300, 65534, 65535, 65536, 70000]
+    for t in btypes:
+        for ln in (0, 1, 2, 8, 251, 252, 253, 254, 300):
+            val = G.rand_bytes(rng, ln) if ln else b''
+            zt = [0, t] if t >= 0 else [1, -t]
+            m = M([19, val, zt])
+            for site, r in (('Component.from_bytes', impl(Component.from_bytes, val, t)),
+                            ('Component.from_hex', impl(Component.from_hex, val.hex(), t))):
+                cmp_res(ctx, site, (val, t), m, r, bytes)
+                if 0 < t <= 65535:
+                    if r[0] != 'ok' or bytes(r[1]) != G.tlv(t, val):
+                        ctx.violation(site, 'component-encoding', f'type {t}, {ln}-octet value: not Type, Length, Value in shortest form',
+                                      {'type': t, 'value': val})
+                    elif ln <= 8:
+                        check_comp(ctx, M, Component, bytes(r[1]), t, val)
+            ctx.case(('cfb', t, val), 0 < t <= 65535, {'op': 'Component.from_bytes', 'type': t, 'len': ln}, 'comp.from_bytes')
+        for v in (0, 1, 255, 256, 65535, 65536, (1 << 32) - 1, 1 << 32, (1 << 64) - 1):
+            if t < 0:
+                continue
+            r = impl(Component.from_number, v, t)
+            cmp_res(ctx, 'Component.from_number', (v, t), M([13, [0, v], t]), r, bytes)
+            if 0 < t <= 65535:
+                if r[0] != 'ok' or bytes(r[1]) != G.tlv(t, TVpack(v)):
+                    ctx.violation('Component.from_number', 'component-encoding', f'type {t}, number {v}: not Type, Length, shortest NonNegativeInteger',
+                                  {'type': t, 'number': v})
+                elif Component.to_number(r[1]) != v or Component.get_type(r[1]) != t:
+                    ctx.violation('Component.to_number', 'number-roundtrip', 'to_number / get_type of from_number(v, t) differ from v, t', (v, t))
+            ctx.case(('cfn', t, v), 0 < t <= 65535, None, 'comp.from_number.types')
     for v in vals:
         for t in (50, 58, 8):
             r = impl(Component.from_number, v, t)
